@@ -97,7 +97,7 @@ def _cmp(ctx, monitor, got_attrs, got, ref, rtol, atol, what, total, want_attrs=
         return ctx.check(False, monitor, 'nonfinite', '%s: non-finite answer' % what)
     ok = models.close(got, ref, rtol, atol)
     if ok and total is not None:
-        ok = abs(float(got.sum()) - total) <= 1e-7 * total
+        ok = abs(float(got.sum()) - total) <= max(1e-7, rtol) * total
         if not ok:
             return ctx.check(False, monitor, 'total', '%s: answer sums to %r, model total %r' % (what, float(got.sum()), total))
     return ctx.check(ok, monitor, 'mismatch', lambda: '%s: max|diff|=%.3e got %s want %s' % (
